@@ -157,6 +157,48 @@ def resolve(world, cwd, s):
     return out
 
 
+def resolve_os(world, cwd, s):
+    """Component list (below the world) of the entry the OPERATING SYSTEM reaches for the path string s in cwd:
+    symbolic links are followed component by component and a dot-dot names the parent of the directory actually
+    reached (for link/.. the parent of the link's target, not the directory holding the link). Needs the world on
+    disk; components that do not exist yet (the output directory to be created) are appended as they are. Used
+    for scenarios that contain symbolic links; the lexical resolve() above is what a folding layer would compute."""
+    s = s.replace(WORLD, world)
+    full = s if s.startswith("/") else os.path.join(world, cwd, s)
+    real, w = os.path.realpath(full), os.path.realpath(world)
+    if not (real == w or real.startswith(w + "/")):
+        return None
+    return comps(real[len(w):])
+
+
+def resolve_links(links, cwd, s):
+    """Generator-side twin of resolve_os (no world on disk yet): the physical component list of s seen from cwd in
+    a world whose only symbolic links are `links` {world-relative path: target string}. Only used to decide where
+    foreign files are placed; the verdict always uses resolve_os on the constructed world."""
+    s = s.replace(WORLD, "")
+    todo = comps(s) if s.startswith("/") else comps(cwd) + comps(s)
+    out, steps = [], 0
+    while todo:
+        c = todo.pop(0)
+        steps += 1
+        if steps > 400:
+            return None
+        if c == "..":
+            if not out:
+                return None
+            out.pop()
+            continue
+        out.append(c)
+        t = links.get("/".join(out))
+        if t is not None:
+            out.pop()
+            t = t.replace(WORLD, "")
+            if t.startswith("/"):
+                out = []
+            todo = comps(t) + todo
+    return out
+
+
 # ---------------------------------------------------------------- snapshots
 
 def tok(b):
@@ -521,7 +563,7 @@ def execute_in(sb, sc, other_tmp=None):
         for rel, target in sc.get("links", {}).items():
             p = os.path.join(world, rel)
             os.makedirs(os.path.dirname(p), exist_ok=True)
-            os.symlink(target, p)
+            os.symlink(sub(world, target), p)
         for rel, mode in sc.get("modes", {}).items():
             os.chmod(os.path.join(world, rel), int(mode, 8))
     except OSError as e:
@@ -529,6 +571,14 @@ def execute_in(sb, sc, other_tmp=None):
     variant = None
     refs = {}
     steps = []
+    # a world with symbolic links: the run's directories are what the OS resolves the configured strings to
+    # (link/.. = parent of the link's TARGET); without links the lexical reading is the OS's
+    if sc.get("links"):
+        def rs(s):
+            return resolve_os(world, sc["cwd"], s)
+    else:
+        def rs(s):
+            return resolve(world, sc["cwd"], s)
     for run in sc["runs"]:
         entry, a = run["entry"], run.get("args", {})
         if run.get("variant"):
@@ -561,7 +611,7 @@ def execute_in(sb, sc, other_tmp=None):
             o_s = sub(world, a.get("o") if a.get("o") is not None else "tauri.conf.json")
             if os.path.basename(o_s) == "tauri.conf.json" and os.path.dirname(o_s) == "":
                 o_s = os.path.join(sub(world, proj), "tauri.conf.json")
-            tgt = resolve(world, sc["cwd"], o_s)
+            tgt = rs(o_s)
             if tgt is None:
                 raise ValueError("init target outside the model: %r" % o_s)
             try:
@@ -576,7 +626,7 @@ def execute_in(sb, sc, other_tmp=None):
                 # explicit configuration file missing or invalid: the run fails before touching anything
                 eff = default_cfg()
                 eff["lib"] = "<config-error>"
-            res = {"out": resolve(world, sc["cwd"], eff["o"]), "proj": resolve(world, sc["cwd"], eff["p"])}
+            res = {"out": rs(eff["o"]), "proj": rs(eff["p"])}
             if res["out"] is None or res["proj"] is None:
                 raise ValueError("path outside the model: %r" % eff)
             res["lib_ok"] = eff["lib"] in ("zod", "none")
@@ -1074,6 +1124,116 @@ def artefact_scenarios(rng=None, count=0):
                       {"entry": e, "variant": None, "args": args}, {"entry": e, "variant": "nocmds", "args": args},
                       {"entry": "build", "variant": "events", "args": {}}]
         scs.append(sc)
+    return scs
+
+
+# ---- output / project paths spelled with dot-dot components behind a symbolic link to a directory
+# The OS resolves link/.. to the parent of the link's TARGET; a layer that folds `dir/..` pairs lexically (path
+# "tidying", normalisation for display, a hand-made canonicaliser) names the directory HOLDING the link instead.
+# kind -> (links {world-relative path: target}, physical directory the link L reaches, spelling of L seen from app)
+LINK_KINDS = {
+    "rel": ({"app/link": "../elsewhere/deep"}, "elsewhere/deep", "link"),
+    "abs": ({"app/link": WORLD + "/elsewhere/deep"}, "elsewhere/deep", "link"),
+    "chain": ({"app/link": "hop", "app/hop": "../elsewhere/deep"}, "elsewhere/deep", "link"),
+    "far": ({"app/link": "../elsewhere/a/b/c"}, "elsewhere/a/b/c", "link"),
+    "nested": ({"app/d/link": "../../elsewhere/deep"}, "elsewhere/deep", "d/link"),
+    "intoproj": ({"app/link": "src-tauri/src"}, "app/src-tauri/src", "link"),   # link/.. = the project directory
+    "sibling": ({"app/link": "real"}, "app/real", "link"),            # control: same parent, folding is harmless
+}
+# spellings of the configured directory; L = the link as spelled from the working directory
+LINK_SPELLINGS = ["{L}/../gen", "./{L}/../gen", "{L}/../gen/", "{L}/./../gen", "{L}/sub/../../gen", "{L}/../gen/ts", "{L}/..",
+                  "{L}/../.", "gen/../{L}/../out", WORLD + "/app/{L}/../gen", "{L}/..//gen",
+                  "{L}/gen", "{L}", "{L}/sub/..", "real/../gen"]        # the last four: controls (no link before a dot-dot
+                                                                       # / the link itself / dot-dot inside the target)
+LINK_SOURCES = ["flag", "cfile", "tauri-cli", "init-g", "tauri-build", "typegen-build", "api"]
+
+
+def symlink_dotdot_scenarios(full=False):
+    """Every link kind x spelling, the configuration source rotating through -o flag, -c file, tauri.conf.json read by
+    the CLI, init -g, tauri.conf.json / typegen.json read by the build script and the library entry (full=True: the
+    whole cross product); the canonical spelling L/../gen on every kind x every source; the project path spelled the
+    same way (the real crate beside the link's target, a command-free decoy crate where folding would look); init
+    pointed at a configuration file spelled that way. Foreign reserved-named and ordinary files wait in the directory
+    the lexical folding names AND in the directory the OS reaches; histories generate / edit + regenerate / cache hit.
+    The run's output directory is resolve_os() of the configured string on the constructed world."""
+    import random as _random
+    scs = []
+    combos = []
+    i = 0
+    for kind in LINK_KINDS:
+        for sp in LINK_SPELLINGS:
+            srcs = LINK_SOURCES if (full or sp == "{L}/../gen") else [LINK_SOURCES[i % len(LINK_SOURCES)]]
+            i += 1
+            combos += [(kind, sp, src, False) for src in srcs]
+    # the project path (and both paths) behind a link
+    combos += [(kind, sp, src, True) for kind in ("rel", "abs", "nested") for sp in ("{L}/../gen", "./gen")
+               for src in (LINK_SOURCES if full else ["flag", "cfile", "tauri-cli", "init-g", "tauri-build", "api"])]
+    for n, (kind, sp, src, proj_behind) in enumerate(combos):
+        r = _random.Random(1600 + n)
+        links, target, lname = LINK_KINDS[kind]
+        links = dict(links)
+        w = sp.replace("{L}", lname)
+        cwd = "app"
+        dirs = [target + "/sub", "app/real/sub", "elsewhere"]
+        if proj_behind:
+            proj_dir, p = "elsewhere/src-tauri", lname + "/../src-tauri"
+            if kind == "nested":
+                p = "./" + p
+        else:
+            proj_dir, p = "app/src-tauri", "./src-tauri"
+        files = {"app/keep.ts": "user", "elsewhere/keep.ts": "user"}
+        if proj_behind:
+            # where a lexical folding of the project path would look: a crate without commands
+            files["app/src-tauri/src/lib.rs"] = "pub fn decoy() {}\n"
+            files["app/d/src-tauri/src/lib.rs"] = "pub fn decoy() {}\n"
+        lexical = resolve("/w", cwd, w.replace(WORLD, "/w"))
+        physical = resolve_links(links, cwd, w)
+        if physical is None or lexical is None:
+            raise ValueError("symlink scenario outside the world: %s %s" % (kind, sp))
+        if "gen/../" in w:
+            dirs.append("app/gen")
+        lex_dir, phys_dir = "/".join(lexical), "/".join(physical)
+        # foreign files: in the directory a folding layer would pick (sometimes absent, so that its creation shows)
+        # and in the directory the OS reaches (reserved names there may be overwritten, ordinary ones never)
+        if lex_dir != phys_dir and n % 4 != 3:
+            place_candidates(r, files, [lex_dir], all_of_them=(n % 2 == 0))
+        if n % 3 != 2:
+            place_candidates(r, files, [phys_dir], all_of_them=False)
+        lib = "zod" if n % 3 == 0 else "none"
+        viz = n % 2 == 0
+        if src == "flag":
+            runs = [{"entry": "generate", "args": {"p": p, "o": w, "v": lib, "viz": viz}}]
+        elif src == "cfile":
+            files["app/my.json"] = json.dumps({"project_path": p, "output_path": w, "validation_library": lib, "visualize_deps": viz})
+            runs = [{"entry": "generate", "args": {"c": "./my.json"}}]
+        elif src in ("tauri-cli", "tauri-build"):
+            files["app/tauri.conf.json"] = tauri_conf(p, w, lib, viz)
+            runs = [{"entry": "generate" if src == "tauri-cli" else "build", "args": {}}]
+        elif src == "typegen-build":
+            files["app/typegen.json"] = json.dumps({"project_path": p, "output_path": w, "validation_library": lib})
+            runs = [{"entry": "build", "args": {}}]
+        elif src == "init-g":
+            # init pointed at a configuration file spelled behind the link as well (every other case)
+            tgt = (lname + "/../typegen.json") if n % 2 == 0 else "custom.json"
+            if tgt != "custom.json":
+                t_lex = "/".join(resolve("/w", cwd, tgt))
+                if t_lex != "/".join(resolve_links(links, cwd, tgt)):
+                    files.setdefault(t_lex, '{"output_path": "./user-made"}')
+            runs = [{"entry": "init", "args": {"p": p, "g": w, "v": lib, "o": tgt, "force": True, "viz": viz}}]
+        else:
+            runs = [{"entry": "api", "args": {"p": p, "o": w, "v": lib}}]
+        runs[0]["variant"] = "events" if n % 4 == 0 else "cmds"
+        runs.append(dict(runs[0], variant="cmds2"))                       # edit -> regenerates
+        if n % 5 == 0:
+            runs.append(dict(runs[0], variant=None))                      # cache hit
+        keys = sorted(files)
+        for k in keys:
+            if any(o != k and o.startswith(k + "/") for o in keys) or k in links or any(k.startswith(l + "/") for l in links):
+                files.pop(k)
+        dirs = [d for d in dirs if not any(d == l or d.startswith(l + "/") for l in links)]
+        scs.append({"name": "symlink-%d-%s-%s%s" % (n, kind, src, "-proj" if proj_behind else ""), "out_string": w,
+                    "lexical_dir": lex_dir, "os_dir": phys_dir, "cwd": cwd, "proj_dir": proj_dir, "dirs": sorted(set(dirs)),
+                    "files": files, "links": links, "runs": runs, "tmpdir": "same"})
     return scs
 
 
